@@ -602,6 +602,11 @@ fn oracle_c04_inner(ctx: &mut Ctx, idx: usize, c: &SCase, r: &SearchAlgorithmRes
                     // travel order
                     let (p, n) = if c.reverse { (w[1], w[0]) } else { (w[0], w[1]) };
                     if c.edge_oriented && (endpoint_edges.contains(&p) || endpoint_edges.contains(&n)) {
+                        // the seams between the origin / destination edge and the inner route are
+                        // never submitted to the frontier model by the edge-oriented wrapper
+                        if pairs.contains(&(p, n)) {
+                            ctx.fail(idx, "route/restricted-turn-at-edge-oriented-seam", format!("route {:?} takes restricted turn ({},{}) at the origin/destination edge", ids, p, n));
+                        }
                         continue;
                     }
                     if pairs.contains(&(p, n)) {
@@ -819,6 +824,14 @@ fn corpus(p: Prop) -> Vec<(SCase, LenStyle)> {
         }
         Prop::C04 => {
             v.push((stale_link_witness(true), LenStyle::Generic));
+            // edge-oriented seam: origin edge 0 (0->1), destination edge 2 (2->3), the only way is
+            // 0,1,2 and the turn (0,1) is restricted
+            let mut c = base(vec![(0, 1, 10.0), (1, 2, 10.0), (2, 3, 10.0)], 4);
+            c.edge_oriented = true;
+            c.source = 0;
+            c.target = Some(2);
+            c.frontier = vec![Fr::TurnRestriction(vec![(0, 1)])];
+            v.push((c, LenStyle::Generic));
         }
         Prop::C10 => {
             let mut c = base(vec![(0, 1, 1.0), (1, 2, 1.0), (2, 3, 1.0)], 4);
